@@ -59,6 +59,36 @@ var zzStmtPrograms = []struct{ name, body string }{
     s = s + e
   }
   > s + e`},
+	{"nested-loops-same-variable", `
+  $ s = 0
+  for i in [a, b] {
+    for i in [7, c] {
+      s = s + i
+    }
+    s = s * 10 + i
+  }
+  > s`},
+	{"block-variable-shadowed-by-inner-loop", `
+  $ s = 0
+  if a < 9 {
+    $ t = b
+    for t in [1, 2] {
+      s = s + t
+    }
+    s = s * 10 + t
+  }
+  > s`},
+	{"block-variable-shadowed-by-match-binding", `
+  $ s = 0
+  if a < 9 {
+    $ v = b
+    $ m = match c {
+      0 => 5
+      v => v + 1
+    }
+    s = m * 10 + v
+  }
+  > s`},
 	{"switch-default", `
   $ r = 0
   switch a {
@@ -185,6 +215,12 @@ func VerifC02_Statements() {
 var zzCallPrograms = []struct{ name, decl, body string }{
 	{"vm-builtin upper", "", `> upper("a")`},
 	{"vm-builtin length", "", `> length([a, b])`},
+	{"vm-builtin length non-ascii", "", `> length("h\u00e9llo w\u00f6rld")`},
+	{"vm-builtin upper non-ascii", "", `> upper("h\u00e9llo")`},
+	{"vm-builtin substring non-ascii", "", `> substring("h\u00e9llo", 1, 3)`},
+	{"vm-builtin split-join non-ascii", "", `> join(split("\u00e9,b", ","), "-")`},
+	{"vm-builtin contains-replace non-ascii", "", `> replace("h\u00e9llo", "\u00e9", "e")`},
+	{"vm-builtin trim", "", `> length(trim("  \u00e9 "))`},
 	{"user-function", "! dbl(n: int): int {\n  > n * 2\n}\n\n", `> dbl(a)`},
 	{"builtin abs", "", `> abs(a)`},
 	{"builtin append", "", `> append([a], b)`},
